@@ -26,6 +26,12 @@ def run(ctx):
         return R
     U = Unord(F, CG)
     U.run([])
+    # 0. the tables the filter reads follow the chain: rolled back by a reorg, dropped by clear_caches, committed with the rest
+    #    (a stale (block, index) -> hash row left by an orphaned block makes eth_getLogs return a log of another block)
+    reads = T.fields_touched(F, ["get_logs"])
+    R.floor("tables_read_by_get_logs", len(reads), 3)
+    for dm in ("reorg", "clear_caches", "commit_changes"):
+        T.clause_tables(R, F, dm, only_fields=reads)
     # 1. order + completeness
     T.clause_scan_unord(R, F, CG, U)
     sites = U.analyze(fn.id, frozenset())
